@@ -184,6 +184,31 @@ def run(ck):
         if s2 != src:
             b2 = dict(b); b2["src"] = s2
             reqs.append(b2); meta.append((fbase + fi, "file-parens"))
+    # record programs: field names are user-chosen identifiers too (literal, destructuring pattern, access, update, parameter pack)
+    FIELD_POOL = ["key1", "key2", "total", "parts", "a", "zz", "freq", "Amp", "x_", "b2", "gain", "attack", "decay", "m", "k"]
+    rbase = fbase + len(files)
+    for ri in range(60 if quick else 600):
+        r = rng.fork(("rec", ri))
+        def names(k):
+            pool = list(FIELD_POOL)
+            for i in range(len(pool) - 1, 0, -1):
+                j = r.below(i + 1); pool[i], pool[j] = pool[j], pool[i]
+            return pool[:k]
+        k = r.range(2, 4)
+        vals = [r.range(1, 9) for _ in range(k)]
+        order2 = list(range(k))
+        for i in range(k - 1, 0, -1):
+            j = r.below(i + 1); order2[i], order2[j] = order2[j], order2[i]
+        def render(fs):
+            lit = ", ".join("%s = %d.0" % (fs[i], vals[i]) for i in range(k))
+            pat = ", ".join("%s = p%d" % (fs[i], i) for i in order2)
+            upd = "%s = %d.0" % (fs[order2[0]], vals[0] + 10)
+            weights = " + ".join("p%d * %d.0" % (i, 10 ** i) for i in range(k))
+            return ("fn mk(s){\n  {%s}\n}\nfn use_%s(r){\n  r.%s * 2.0\n}\nfn dsp(){\n  let r = mk(1.0)\n  let {%s} = r\n  let r2 = { r <- %s }\n  (%s) + r2.%s * 100000.0 + use_%s(r)\n}\n"
+                    % (lit, "f", fs[k - 1], pat, upd, weights, fs[order2[0]], "f"))
+        f1, f2 = names(k), names(k)
+        reqs.append({"src": render(f1), "n": 3, "state": False}); meta.append((rbase + ri, "orig"))
+        reqs.append({"src": render(f2), "n": 3, "state": False}); meta.append((rbase + ri, "field-rename"))
     res = run_impl(iexe, reqs, timeout_per_batch=400)
     stats = {}
     def bump(k, n=1): stats[k] = stats.get(k, 0) + n
